@@ -190,7 +190,28 @@ def controller_monitor(sn, faulty):
     """the controller creates pods at desired ordinals and nowhere else (the vacancy clause is C04's)"""
     from props import monitors
     bad = []
-    if not sn.ok or not sn.domain_ok:
+    if not sn.ok:
+        return bad
+    # "at exactly those ordinals", the other direction, where one reconcile must do it all (Parallel, nothing failing): every
+    # desired ordinal that no member pod holds gets its pod — whatever else is around (members whose name carries no usable
+    # ordinal, e.g. <set>-4294967296 or <set>-01, hold no ordinal of their own)
+    failed_call = any(c.get("err") for c in sn.calls)
+    api_set = sn.sc["api"].get("set")
+    live_same = api_set is not None and api_set["uid"] == sn.set["uid"] and not api_set["deleting"]
+    if sn.parallel and not faulty and not sn.deleting and not sn.paused and sn.set["selector"] == "ok" and sn.obs["result"] == "ok" \
+            and not failed_call and live_same and sn.set.get("replicas") is not None:
+        held = set()
+        for p in sn.claimed:
+            parent, o = monitors.parse_name(p["name"])
+            if parent == sn.name and o >= 0:
+                held.add(o)
+        created = {c["name"] for c in sn.calls if c["verb"] == "create" and c["res"] == "pods"}
+        for j in sn.desired:
+            if j not in held and "%s-%d" % (sn.name, j) not in created:
+                bad.append("desired ordinal %d is vacant and was not created by this reconcile (Parallel; desired %s, members %s)"
+                           % (j, sn.desired, sorted(p["name"] for p in sn.claimed)))
+                break
+    if not sn.domain_ok:
         return bad
     for c in sn.calls:
         if c["verb"] == "create" and c["res"] == "pods":
@@ -201,12 +222,32 @@ def controller_monitor(sn, faulty):
     return bad
 
 
+def controller_tweak(rng, sc):
+    """now and then a member pod whose name carries no usable ordinal (it does not fit an int32, or it is written with a
+    leading zero): it holds no desired ordinal and takes nobody's place"""
+    from props import reconcile_common as rc
+    st = sc["api"].get("set")
+    if st is None or sc["cache"].get("set") is None or rng.random() > 0.2:
+        return sc
+    name = st["name"]
+    k = rng.randrange(0, 4)
+    stray = rng.choice(["%s-4294967296" % name, "%s-%d9999999999" % (name, k + 1), "%s-99999999999999999999" % name])
+    ref = next((p for p in sc["api"]["pods"] if p.get("owner")), None)
+    pod = rc.mkpod(0, (ref or {}).get("rev", ""), name=stray, claims=st.get("claims") or [], tmpl=(ref or {}).get("tmpl", 1))
+    if rng.random() < 0.6:
+        for w in (sc["api"], sc["cache"]):
+            w["set"]["policy"] = "Parallel"
+    for w in (sc["api"], sc["cache"]):
+        w["pods"] = [p for p in w["pods"] if p["name"] != stray] + [dict(pod)]
+    return sc
+
+
 def run(ctx, depth):
     run_helper_family(ctx, depth)
     from props import reconcile_common as rc
     # the controller side of the property: every pod create of the real controller is at a desired ordinal,
     # and the create calls agree with the model of the whole reconcile
-    rc.run_reconcile_property(ctx, depth, "C01", "pi_pod_create", controller_monitor, sizes=(220, 5000), fault_bases=(0, 100))
+    rc.run_reconcile_property(ctx, depth, "C01", "pi_pod_create", controller_monitor, tweak=controller_tweak, sizes=(220, 5000), fault_bases=(0, 100))
 
 
 def search(ctx):
